@@ -122,16 +122,35 @@ func (b *builder) intTok() aval {
 	}
 }
 
-// uintStrTok: a string-formatted unsigned integer of one or two digits (the helpers' behaviour on every
-// uint64 - in particular beyond 2^63 - is C13's subject: twenty-digit values inside a whole generated decoder
-// did not close here).
+// unixTok: a unix timestamp as a JSON number: small (a symbolic digit) or far in the future - a 14-digit count
+// whose last two digits are symbolic (beyond the int64-nanosecond window for milliseconds: the value must survive
+// decode -> time.Time -> encode unchanged).
+func (b *builder) unixTok() aval {
+	if b.p.next(2) == 0 {
+		return aval{kind: kNum, num: b.digit(false)}
+	}
+	b.lit("925340230071")
+	hi := b.digit(false)
+	lo := b.digit(false)
+	return aval{kind: kNum, num: 92534023007100 + hi*10 + lo}
+}
+
+// uintStrTok: a string-formatted unsigned integer of one or two digits, or nineteen digits around 2^63 with the
+// last three symbolic (the helpers' behaviour on EVERY uint64 is C13's subject: twenty fully symbolic digits inside
+// a whole generated decoder did not close here).
 func (b *builder) uintStrTok() aval {
 	b.lit(`"`)
 	start := len(b.out)
-	if b.p.next(2) == 0 {
+	switch b.p.next(3) {
+	case 0:
 		b.digit(false)
-	} else {
+	case 1:
 		b.digit(true)
+		b.digit(false)
+	default: // nineteen digits around 2^63 = 9223372036854775808: the last three are symbolic (all below 2^64)
+		b.lit("9223372036854775")
+		b.digit(false)
+		b.digit(false)
 		b.digit(false)
 	}
 	content := append([]byte(nil), b.out[start:]...)
@@ -217,6 +236,9 @@ func (b *builder) value(s *zzSchema, wrongType bool) aval {
 	}
 	switch s.Type {
 	case "integer":
+		if s.Format == "unix-milli" || s.Format == "unix-seconds" {
+			return b.unixTok()
+		}
 		return b.intTok()
 	case "number": // floats are concrete in the engine: a fixed literal with a fraction (the TYPE of the member is the subject)
 		b.lit("1.5")
